@@ -936,13 +936,25 @@ void oasis_write_repetition(OasisStream& out, const Repetition repetition, doubl
         } break;
         case RepetitionType::ExplicitX:
             if (repetition.coords.count > 0) {
-                oasis_putc(4, out);
-                oasis_write_unsigned_integer(out, repetition.coords.count - 1);
                 double* items = (double*)allocate(sizeof(double) * repetition.coords.count);
                 memcpy(items, repetition.coords.items, sizeof(double) * repetition.coords.count);
                 sort(items, repetition.coords.count);
                 double* c0 = items;
                 double* c1 = c0 + 1;
+                if (*c0 < 0) {
+                    // Types 4 and 5 store unsigned spaces from the original:
+                    // coordinates below it need the general form
+                    oasis_putc(10, out);
+                    oasis_write_unsigned_integer(out, repetition.coords.count - 1);
+                    oasis_write_gdelta(out, (int64_t)llround(*c0 * scaling), 0);
+                    for (uint64_t i = repetition.coords.count - 1; i > 0; --i) {
+                        oasis_write_gdelta(out, (int64_t)llround((*c1++ - *c0++) * scaling), 0);
+                    }
+                    free_allocation(items);
+                    break;
+                }
+                oasis_putc(4, out);
+                oasis_write_unsigned_integer(out, repetition.coords.count - 1);
                 oasis_write_unsigned_integer(out, (uint64_t)llround(*c0 * scaling));
                 for (uint64_t i = repetition.coords.count - 1; i > 0; --i) {
                     oasis_write_unsigned_integer(out, (uint64_t)llround((*c1++ - *c0++) * scaling));
@@ -952,13 +964,25 @@ void oasis_write_repetition(OasisStream& out, const Repetition repetition, doubl
             break;
         case RepetitionType::ExplicitY:
             if (repetition.coords.count > 0) {
-                oasis_putc(6, out);
-                oasis_write_unsigned_integer(out, repetition.coords.count - 1);
                 double* items = (double*)allocate(sizeof(double) * repetition.coords.count);
                 memcpy(items, repetition.coords.items, sizeof(double) * repetition.coords.count);
                 sort(items, repetition.coords.count);
                 double* c0 = items;
                 double* c1 = c0 + 1;
+                if (*c0 < 0) {
+                    // Types 6 and 7 store unsigned spaces from the original:
+                    // coordinates below it need the general form
+                    oasis_putc(10, out);
+                    oasis_write_unsigned_integer(out, repetition.coords.count - 1);
+                    oasis_write_gdelta(out, 0, (int64_t)llround(*c0 * scaling));
+                    for (uint64_t i = repetition.coords.count - 1; i > 0; --i) {
+                        oasis_write_gdelta(out, 0, (int64_t)llround((*c1++ - *c0++) * scaling));
+                    }
+                    free_allocation(items);
+                    break;
+                }
+                oasis_putc(6, out);
+                oasis_write_unsigned_integer(out, repetition.coords.count - 1);
                 oasis_write_unsigned_integer(out, (uint64_t)llround(*c0 * scaling));
                 for (uint64_t i = repetition.coords.count - 1; i > 0; --i) {
                     oasis_write_unsigned_integer(out, (uint64_t)llround((*c1++ - *c0++) * scaling));
